@@ -35,7 +35,8 @@ func asciiOnlyFields(p *core.Prog) (fields map[*types.Var]string, notes []string
 				if n := namedOfType(fa.X.Type()); n == nil || n.Obj().Name() != "CompilerConfig" {
 					continue
 				}
-				if v, known := evalBool(st.Val, nil); known && v {
+				// may be true: the constant true, or any value that is not the constant false (a configuration flag)
+				if v, known := evalBool(st.Val, nil); !known || v {
 					tainted[fa.X] = true // the config literal
 					found = true
 				}
@@ -110,6 +111,12 @@ func asciiOnlyFields(p *core.Prog) (fields map[*types.Var]string, notes []string
 							continue
 						}
 						for _, ref := range *call.Referrers() {
+							// single result: the call's value itself is stored
+							if st, ok := ref.(*ssa.Store); ok && k == 0 && st.Val == ssa.Value(call) {
+								if fa, ok := st.Addr.(*ssa.FieldAddr); ok {
+									fields[innerField(fa)] = core.FuncName(fn)
+								}
+							}
 							ex, ok := ref.(*ssa.Extract)
 							if !ok || ex.Index != k || ex.Referrers() == nil {
 								continue
@@ -163,7 +170,7 @@ func subSliceOf(x, y ssa.Value) bool {
 func init() {
 	core.Register(&core.Rule{
 		Name: "R-ASCIIGUARD",
-		Doc: "Every search call on an ASCII-only engine (a struct field that, by value flow from a CompilerConfig literal with ASCIIOnly: true through the NFA compiler and an engine constructor, holds such an engine) with a byte-slice argument X must be dominated by the true edge of simd.IsASCII(Y) where X is Y itself or a sub-slice of Y, never a super-slice of it: in the ASCII automaton '.' is [\\x00-\\x7F], so one non-ASCII byte anywhere in the searched slice makes it reject what the UTF-8 automaton accepts. Necessary for C15 (ASCII-only mode only when the haystack is ASCII) and C12 (EnableASCIIOptimization may not change answers).",
+		Doc: "Every search call on an ASCII-only engine (a struct field that, by value flow from a CompilerConfig literal whose ASCIIOnly is the constant true or any value that is not the constant false (a configuration flag), through the NFA compiler and an engine constructor, holds such an engine) with a byte-slice argument X must be dominated by the true edge of simd.IsASCII(Y) where X is Y itself or a sub-slice of Y, never a super-slice of it: in the ASCII automaton '.' is [\\x00-\\x7F], so one non-ASCII byte anywhere in the searched slice makes it reject what the UTF-8 automaton accepts. Necessary for C15 (ASCII-only mode only when the haystack is ASCII) and C12 (EnableASCIIOptimization may not change answers).",
 		Min: 4, NeedSSA: true,
 		Run: func(p *core.Prog) *core.RuleResult {
 			res := &core.RuleResult{}
